@@ -4,7 +4,9 @@ From SV Require Import Lib.Base Gen.Consts.
 From SV Require Import Model.Seq32 Model.Assembler Model.TcpBuf Model.TcpTypes Model.Tcp.
 From SV Require Import Proofs.TcpSendBase Proofs.TcpSendInv Proofs.TcpLiveBase Proofs.TcpLiveProofs.
 From SV Require Import Proofs.TcpBurstBase Proofs.TcpBurstStep Proofs.TcpBurstEmit Proofs.TcpBurstProofs.
-From SV Require Import Proofs.TcpBurstExamples.
+From SV Require Import Proofs.TcpBurstExamples Proofs.TcpBurstInv.
+From SV Require Import Proofs.AssemblerProofs Proofs.TcpRecvBase Proofs.TcpRecvWindow Proofs.TcpRecvPayload Proofs.TcpRecvInv Proofs.TcpBurstRx.
+From SV Require Import Proofs.TcpSendTrace.
 From SV Require Import Props.C03tcp.
 
 Check (C03_tcp_burst_step : forall cx s s' p tags,
@@ -43,3 +45,21 @@ Check (C03_tcp_burst_keep_alive_zero_refuted :
 Check (C03_tcp_burst_small_mtu_refuted :
   exists cx s, binv_core cx s /\ ka_pos s /\ cx_ip_mtu cx = 52 /\ emss cx s = 0 /\
                forall n, exists s', burst_run cx s n s').
+
+Check (C03_tcp_burst_reachable_inv : forall s, burst_reach s ->
+  tcp_live_inv s /\ (exists g, inv g s) /\ sinv s).
+
+Check (C03_tcp_burst_sinv_step : forall cx s ev s' out tags,
+  TcpLiveProofs.ctx_ok cx -> ev_ok ev -> tcp_live_inv s -> sinv13 s ->
+  tcp_step cx s ev = Ok (s', out, tags) -> sinv13 s').
+
+Check (C03_tcp_poll_egress_returns_reachable : forall fuel cx s budget s' sent tags fin,
+  burst_reach s -> TcpSendInv.ctx_ok cx -> mtu_ok cx -> rx_ok s -> ka_pos s ->
+  iface_poll_egress fuel cx s budget = Ok (s', sent, tags, fin) ->
+  Z.of_nat (length sent) <= burst_bound cx s /\
+  (burst_bound cx s < Z.of_nat fuel -> fin = true)).
+
+Check (C03_tcp_rx_ok_of_synced : forall S F have irs c s,
+  rx_synced S F have irs c s -> rx_ok s).
+
+Check (C03_tcp_rx_ok_of_unsynced : forall s, rx_unsynced s -> rx_ok s).
